@@ -26,7 +26,7 @@ EXPLANATION = (
     "written is read under the same spelling; (R7) constraint edges enter the trusted set only under a full-coverage test; (R8) the flow-safe paths imposed by the flow-safety option are computed with the strict excess-flow threshold.  "
     "(R9) the greedy option's coverage test counts path edges (max_occurrence body) and queued bound fixes reach the solver on every path of optimize().  "
     " (R10) option interplay: the greedy shortcut is not taken when solution_weights_superset is given, flow-safe paths switch the other safety options off instead of raising, a trusted set built from a percentile contains no zero-flow edge and its population excludes ignored elements, flow-safe paths only when nothing is ignored (C10.R8). "
-    "NOT decided: that fixing safe sequences / pruning edges preserves the optimum (C06), equality of optima."
+    "The greedy acceptance test uses the thresholds and units of rows 7a (C10.R5 rejection / units).  NOT decided: that fixing safe sequences / pruning edges preserves the optimum (C06), equality of optima."
     ' (R10, round 4) subpath constraints are used as safe sequences only under full coverage in both metrics (the guard is evaluated on the six combinations of full / partial coverage); cache ownership and purity of the reachability substrate (C17.R1 / R2).'
     ' (R10, hunt 4) under full length coverage a constraint with a zero-length edge is not a safe sequence and its zero-length edges are not trusted; noise weights of the subgraph-scanning windows are filtered.'
 )
